@@ -26,6 +26,9 @@ ASSUMPTIONS = ['metadata values are in the image of the comment scanner (no "::"
                'token streams are compared with the reference scanner pv/ref/lex.py (type and text)']
 
 
+_CODEC = penman.PENMANCodec()
+
+
 def _tokens(s):
     return [(t[0], t[1]) for t in rlex.scan(s) if t[0] != 'COMMENT']
 
@@ -51,6 +54,10 @@ def check_tree(j, meta):
             break
         if dict(t2.metadata) != meta:
             f.append(('metadata-roundtrip', 'indent=%r compact=%r: %r -> %r' % (indent, compact, meta, dict(t2.metadata))))
+            break
+        # the codec object is the same function under another name
+        if _CODEC.format(t, indent=indent, compact=compact) != s or _CODEC.parse(s).node != t2.node:
+            f.append(('codec-object-differs', 'indent=%r compact=%r: %s' % (indent, compact, short(s))))
             break
         toks = (_tokens(s), _meta_lines(s))
         if base is None:
@@ -171,11 +178,11 @@ ALPHA = list('()/:~"\\# \na1')
 def stages(tier):
     L = 5 if tier == 'quick' else 6
     return [
-        Fuzz('coverage-guided-bytes', 0, 2000000, decode=lambda data: {'k': 'text', 's': data.decode('utf-8', 'ignore'), 'multi': True},
+        Fuzz('coverage-guided-bytes', 0, 1200000, decode=lambda data: {'k': 'text', 's': data.decode('utf-8', 'ignore'), 'multi': True},
              seeds=corpus.test_strings(), dictionary=corpus.DICTIONARY, max_len=160),
-        Hyp('assembled-trees', _tree_cases, 4000, 150000),
+        Hyp('assembled-trees', _tree_cases, 4000, 100000),
         Hyp('assembled-trees-large', lambda: _tree_cases(large=True), 300, 15000),
-        Hyp('spaced-texts', _text_cases, 4000, 150000),
+        Hyp('spaced-texts', _text_cases, 4000, 100000),
         Enum('short-strings',
              lambda tier: strings.prefix_chunks(ALPHA, L, 2),
              lambda ch: ({'k': 'text', 's': s} for s in strings.strings_of(ch, ALPHA, L, 2)),
